@@ -201,7 +201,52 @@ pub fn large_case_strategy() -> impl Strategy<Value = Case> {
         })
 }
 
+/// A document with one comment line of tens of megabytes (a single look-ahead larger than any
+/// "reasonable" internal limit); described by its parameters so that the case stays small.
+#[derive(Serialize, Deserialize, Clone, Debug, PartialEq, Eq, Hash)]
+pub struct HugeLine {
+    /// 0 cnf comment, 1 solver log comment, 2 btor2 comment line, 3 aag comment section
+    pub format: u8,
+    pub len: usize,
+    pub chunk: Option<usize>,
+}
+
+pub fn check_huge_line(h: &HugeLine, obs: &mut Obs) -> CheckResult {
+    let filler = |n: usize| (0..n).map(|i| b'a' + (i % 23) as u8);
+    let (parser, bytes): (ParserId, Vec<u8>) = match h.format % 4 {
+        0 => (ParserId::Cnf, b"1 2 0\nc ".iter().copied().chain(filler(h.len)).chain(b"\n-1 3 0\n2 0\n".iter().copied()).collect()),
+        1 => (
+            ParserId::Log,
+            b"c ".iter().copied().chain(filler(h.len)).chain(b"\ns SATISFIABLE\nv 1 -2 0\n".iter().copied()).collect(),
+        ),
+        2 => (
+            ParserId::Btor2,
+            b"1 sort bitvec 8\n; ".iter().copied().chain(filler(h.len)).chain(b"\n2 input 1 x\n".iter().copied()).collect(),
+        ),
+        _ => (ParserId::AagParse, b"aag 1 1 0 1 0\n2\n2\nc\n".iter().copied().chain(filler(h.len)).chain(b"\n".iter().copied()).collect()),
+    };
+    obs.class("line>64MiB");
+    let c = Case {
+        input: Input {
+            spec: Spec { parser, lit: 3, flag: false },
+            bytes,
+            class: "huge-line".into(),
+        },
+        feed: Feed {
+            chunk: h.chunk,
+            ..Feed::one_shot()
+        },
+    };
+    check(&c, obs)
+}
+
 fn run(ctx: &Ctx) {
+    // four cases per run (shards 0..3): ~70 MB each
+    if ctx.shard < 4 {
+        let strat = (0u8..4, (65usize << 20)..(72 << 20), prop_oneof![Just(None), Just(Some(1usize << 20)), Just(Some(40usize << 20))])
+            .prop_map(|(format, len, chunk)| HugeLine { format, len, chunk });
+        ctx.run_cases("differential-huge-line", 1, strat, check_huge_line);
+    }
     let n = ctx.share(ctx.tier.pick(1_200_000, 40_000_000));
     let strat = (input_strategy(10, true), crate::source::parser_feed_strategy()).prop_map(|(input, feed)| Case { input, feed });
     ctx.run_cases("differential", n, strat, check);
@@ -211,6 +256,10 @@ fn run(ctx: &Ctx) {
 
 fn replay(oracle: &str, v: &Value) -> Option<CheckResult> {
     match oracle {
+        "differential-huge-line" => Some(match replay_from_file::<HugeLine>(v) {
+            Ok(c) => check_huge_line(&c, &mut Obs::default()),
+            Err(e) => Err(Failure::new("C01:decode", e)),
+        }),
         "differential" | "differential-large" => Some(match replay_from_file::<Case>(v) {
             Ok(c) => check(&c, &mut Obs::default()),
             Err(e) => Err(Failure::new("C01:decode", e)),
